@@ -587,6 +587,9 @@ func ruleC16R6(c *Ctx) {
 			fns = append(fns, f)
 		}
 	}
+	if os.Getenv("SLOGCHECK_R6ALL") != "" {
+		fns = append([]*ssa.Function{}, c.P.universe...) // exploration: the whole module
+	}
 	sort.Slice(fns, func(i, j int) bool { return anchorName(fns[i]) < anchorName(fns[j]) })
 	nCalls, nNil := 0, 0
 	// does f read its parameter p (range, index, len, lookup, or hand it to something that may)?
